@@ -90,7 +90,11 @@ func genC03(seed uint64, tier string) *plan.Plan {
 		case x < 9:
 			t := tmpls[r.IntN(len(tmpls))]
 			nrec := 1 + r.IntN(4)
-			body := t.dataBody(r, nrec, []int{0, 3, 40, 254, 255, 300}[r.IntN(6)], r.IntN(3) == 0, r.IntN(4) == 0)
+			padOnly := r.IntN(12) == 0 // a set that holds padding and no record
+			if padOnly {
+				nrec = 0
+			}
+			body := t.dataBody(r, nrec, []int{0, 3, 40, 254, 255, 300}[r.IntN(6)], r.IntN(3) == 0, padOnly || r.IntN(4) == 0)
 			b := t.dataMsg(hdr(), body)
 			how := "data"
 			if r.IntN(10) < 6 {
